@@ -214,3 +214,29 @@ Proof. exact digits_spec. Qed.
 Lemma key_array_variant_refuted_proof :
   key_of_array kw_n1 6 ScNone = key_of_array kw_n1 13 ScNone.
 Proof. vm_compute. reflexivity. Qed.
+
+(* no leading zero: digits q is THE decimal numeral of q *)
+Lemma digits_fuel_nolead : forall f n acc,
+    n < 10 ^ N.of_nat (S f) -> n <> 0 ->
+    exists d r, digits_fuel (S f) n acc = d :: r /\ d <> 48.
+Proof.
+  induction f as [|f IH]; intros n acc Hn Hz.
+  - replace (10 ^ N.of_nat 1) with 10 in Hn by reflexivity.
+    cbn [digits_fuel]. assert (Hd : N.div n 10 = 0) by (apply N.div_small; exact Hn). rewrite Hd. cbn [N.eqb].
+    exists (48 + n mod 10), acc. split; [reflexivity|]. rewrite N.mod_small by exact Hn. lia.
+  - remember (S f) as f1. cbn [digits_fuel]. destruct (N.eqb (N.div n 10) 0) eqn:E.
+    + apply N.eqb_eq in E. exists (48 + n mod 10), acc. split; [reflexivity|].
+      clear IH Hn. revert E Hz. nlia n.
+    + subst f1. apply N.eqb_neq in E.
+      assert (Hq : N.div n 10 < 10 ^ N.of_nat (S f)).
+      { apply N.div_lt_upper_bound; [discriminate|]. rewrite <- N.pow_succ_r'. rewrite <- Nnat.Nat2N.inj_succ. exact Hn. }
+      exact (IH (N.div n 10) ((48 + n mod 10) :: acc) Hq E).
+Qed.
+
+Lemma digits_canonical_proof : forall q, q < 65536 ->
+    Forall is_digit (digits q) /\ val (digits q) = q /\ (q = 0 -> digits q = [48]) /\ (q <> 0 -> exists d r, digits q = d :: r /\ d <> 48).
+Proof.
+  intros q Hq. destruct (digits_spec q Hq) as [_ [V F]]. repeat split; try assumption.
+  - intros ->. vm_compute. reflexivity.
+  - intros Hz. unfold digits. apply digits_fuel_nolead; [|assumption]. eapply N.lt_trans; [exact Hq|]. vm_compute. reflexivity.
+Qed.
